@@ -3,8 +3,8 @@
 # `rounds` times with different seeds; print one line per run; exit 1 if any run alarmed.
 R=${1:-2}
 export VERIF_ROOT=$(pwd)
-./tools/setup.sh >/dev/null 2>&1 || echo "setup failed"
 rc=0
+./tools/setup.sh >.build.setup.log 2>&1 || { echo "SETUP FAILED (exit code of setup_cmd is not 0):"; tail -3 .build.setup.log | cut -c1-300; rc=1; }
 for r in $(seq 1 $R); do
   for p in $(python3 -c "import json;print(' '.join(c['property_id'] for c in json.load(open('MANIFEST.json'))['checks']))"); do
     seed=$((100*r+7))
